@@ -22,7 +22,7 @@ import traceback
 from pathlib import Path
 
 VERIF = Path(__file__).resolve().parents[1]
-REPO = Path("/repo")
+REPO = Path(os.environ.get("LADIM2_VERIF_REPO", "/repo"))  # override: only the seed tooling (parallel scratch worktrees, with PYTHONPATH) sets it
 PY = "/venv/bin/python"
 
 _MOD = None
@@ -74,7 +74,7 @@ def load_known(pid: str) -> list[dict]:
 
 
 def write_replay(pid: str, v: dict, tier: str, seed: int) -> Path:
-    d = VERIF / "replays" / pid
+    d = (Path(os.environ["LADIM2_VERIF_OUT"]) if os.environ.get("LADIM2_VERIF_OUT") else VERIF) / "replays" / pid
     d.mkdir(parents=True, exist_ok=True)
     body = dict(
         property=pid,
@@ -304,8 +304,9 @@ def main(argv=None) -> int:
         wall_s=round(wall, 2),
         violations=n_new,
     )
-    (VERIF / "evidence").mkdir(exist_ok=True)
-    (VERIF / "evidence" / f"{pid}.json").write_text(json.dumps(ev, indent=1, default=str))
+    evdir = Path(os.environ["LADIM2_VERIF_OUT"]) / "evidence" if os.environ.get("LADIM2_VERIF_OUT") else VERIF / "evidence"
+    evdir.mkdir(parents=True, exist_ok=True)
+    (evdir / f"{pid}.json").write_text(json.dumps(ev, indent=1, default=str))
 
     print(
         f"{pid} tier={tier} seed={seed}: cases={done}/{len(cases)} evals={agg['evals']} "
